@@ -69,7 +69,11 @@ func buildQuery(vc *VC, o *Obligation) string {
 	for _, a := range append(vc.literalAxioms(), vc.containmentAxioms()...) {
 		sb.WriteString("(assert " + a + ")\n")
 	}
-	for _, a := range vc.asserts {
+	ctx := vc.asserts
+	if o.Ctx >= 0 && o.Ctx < len(ctx) {
+		ctx = ctx[:o.Ctx]
+	}
+	for _, a := range ctx {
 		if o.Kind == "reach" && (strings.Contains(a, "(forall ") || strings.Contains(a, "(exists ")) {
 			continue // quantifier-free approximation of the context: decidable reachability cover
 		}
